@@ -1,5 +1,6 @@
 import Genq.Props.C09
 open Genq.TypeMap
+open Genq.Names
 #print axioms C09_match_iff_same_selection
 #print axioms C09_reuse_only_same_need
 #print axioms C09_resolved_requests_hold
@@ -9,3 +10,7 @@ open Genq.TypeMap
 #print axioms C09_shared_name_same_need_checked
 #print axioms C09_full_refuted
 #print axioms C09_full_refuted_by_peek
+#print axioms C09_names_start_with_operation
+#print axioms C09_unrelated_operations_never_share_names
+#print axioms C09_name_ends_with_type
+#print axioms C09_naming_is_not_injective
